@@ -76,6 +76,17 @@ func genConc(r *rand.Rand, n int, separate bool) []Case {
 				setup = append(setup, o)
 			}
 		}
+		// 1 case in 6 (one location): a fact and a rule that expire just before the clients are
+		// released, so that the first reads of several clients find them expired at the same time
+		// (the purge of expired items happens inside Get / Search / FindRules)
+		expiring := !separate && r.Intn(6) == 0
+		if expiring {
+			setup = append(setup,
+				map[string]interface{}{"loc": "L0", "op": "addfact", "id": "i0", "expires_in": 1.0,
+					"fact": map[string]interface{}{"k": "x", "n": 1.0}},
+				map[string]interface{}{"loc": "L0", "op": "addrule", "id": "ri1", "expires_in": 1.0,
+					"rule": rulePat(map[string]interface{}{"k": "?v"})})
+		}
 		var clients []interface{}
 		for c := 0; c < k; c++ {
 			loc := "L0"
@@ -83,6 +94,16 @@ func genConc(r *rand.Rand, n int, separate bool) []Case {
 				loc = fmt.Sprintf("L%d", c)
 			}
 			var ops []interface{}
+			if expiring {
+				switch r.Intn(3) {
+				case 0:
+					ops = append(ops, map[string]interface{}{"loc": loc, "op": "search", "inherited": false, "pattern": map[string]interface{}{"k": "?v"}})
+				case 1:
+					ops = append(ops, map[string]interface{}{"loc": loc, "op": "getfact", "id": pick(r, "i0", "ri1")})
+				default:
+					ops = append(ops, map[string]interface{}{"loc": loc, "op": "event", "event": map[string]interface{}{"k": "x"}})
+				}
+			}
 			for j := 0; j < 2+r.Intn(3); j++ {
 				ops = append(ops, mkop(loc))
 			}
@@ -90,7 +111,7 @@ func genConc(r *rand.Rand, n int, separate bool) []Case {
 		}
 		_ = g
 		cases = append(cases, Case{"locs": locs, "setup": setup, "clients": clients, "ids": []interface{}{"i0", "i1", "i2", "ri0", "ri1", "ri2"},
-			"separate": separate, "child": true})
+			"separate": separate, "child": true, "expiring": expiring})
 	}
 	return cases
 }
@@ -146,8 +167,26 @@ func execConcCase(c Case) {
 				return
 			}
 		}
+		var wait time.Time
 		for _, oi := range list(c["setup"]) {
-			execLocOp(w, obj(oi))
+			o := obj(oi)
+			if in, timed := o["expires_in"]; timed {
+				// an absolute expiry (whole seconds), stamped now so that the model sees the same value
+				at := float64(time.Now().Unix() + num(in))
+				delete(o, "expires_in")
+				key := "fact"
+				if _, isRule := o["rule"]; isRule {
+					key = "rule"
+				}
+				obj(o[key])["expires"] = at
+				if t := time.Unix(int64(at), 0).Add(1150 * time.Millisecond); t.After(wait) {
+					wait = t
+				}
+			}
+			execLocOp(w, o)
+		}
+		if !wait.IsZero() {
+			time.Sleep(time.Until(wait))
 		}
 	}
 	start := time.Now()
